@@ -13,6 +13,7 @@ import (
 	"go/types"
 	"reflect"
 	"sort"
+	"sync"
 
 	"github.com/expr-lang/expr"
 	"github.com/expr-lang/expr/ast"
@@ -325,6 +326,9 @@ func (i *interpreter) toNativeTyped(v value, t types.Type, opaque map[int]value)
 	case structure:
 		if t != nil {
 			if st, ok := t.Underlying().(*types.Struct); ok {
+				if n, ok := i.toNativeStruct(x, t, st, opaque); ok {
+					return n, true
+				}
 				out := map[string]any{}
 				for k := 0; k < st.NumFields(); k++ {
 					f := st.Field(k)
@@ -422,6 +426,14 @@ func (i *interpreter) fromNativeAny(x any, opaque map[int]value) value {
 	}
 	rv := reflect.ValueOf(x)
 	switch rv.Kind() {
+	case reflect.Struct:
+		if f := rv.FieldByName(structIDField); f.IsValid() && f.Kind() == reflect.Int {
+			o := opaque[int(f.Int())]
+			if it, ok := o.(iface); ok {
+				return it
+			}
+			return iface{tEmptyIface, o}
+		}
 	case reflect.Slice:
 		out := make([]value, rv.Len())
 		for k := range out {
@@ -759,4 +771,147 @@ func (ev *exprEval) equal(l, r value) value {
 		return reflect.DeepEqual(ln, rn)
 	}
 	return false
+}
+
+// ---- structs as real Go structs -------------------------------------------------
+
+// A struct of the program under test is handed to the real expression VM as
+// a value of a reflect.StructOf type with the same exported field names, tags
+// and (basic) field types, so that the VM's struct code paths (field fetch by
+// name or by index, typed comparisons) behave as they do natively. A hidden
+// field carries the index of the original engine value for the way back.
+const structIDField = "ZZid"
+
+var structTypes sync.Map // types.Type.String() -> reflect.Type or nil
+
+var anyType = reflect.TypeOf((*any)(nil)).Elem()
+
+func goFieldType(t types.Type) reflect.Type {
+	switch u := t.Underlying().(type) {
+	case *types.Basic:
+		switch u.Kind() {
+		case types.Bool:
+			return reflect.TypeOf(false)
+		case types.Int:
+			return reflect.TypeOf(int(0))
+		case types.Int8:
+			return reflect.TypeOf(int8(0))
+		case types.Int16:
+			return reflect.TypeOf(int16(0))
+		case types.Int32:
+			return reflect.TypeOf(int32(0))
+		case types.Int64:
+			return reflect.TypeOf(int64(0))
+		case types.Uint:
+			return reflect.TypeOf(uint(0))
+		case types.Uint8:
+			return reflect.TypeOf(uint8(0))
+		case types.Uint16:
+			return reflect.TypeOf(uint16(0))
+		case types.Uint32:
+			return reflect.TypeOf(uint32(0))
+		case types.Uint64:
+			return reflect.TypeOf(uint64(0))
+		case types.Float32:
+			return reflect.TypeOf(float32(0))
+		case types.Float64:
+			return reflect.TypeOf(float64(0))
+		case types.String:
+			return reflect.TypeOf("")
+		}
+	case *types.Slice:
+		if b, ok := u.Elem().Underlying().(*types.Basic); ok {
+			switch b.Kind() {
+			case types.String:
+				return reflect.TypeOf([]string(nil))
+			case types.Int:
+				return reflect.TypeOf([]int(nil))
+			}
+		}
+		return reflect.TypeOf([]any(nil))
+	case *types.Map:
+		if b, ok := u.Key().Underlying().(*types.Basic); ok && b.Kind() == types.String {
+			return reflect.TypeOf(map[string]any(nil))
+		}
+	case *types.Struct:
+		if rt := goStructType(t, u); rt != nil {
+			return rt
+		}
+	}
+	// pointers, interfaces, nested things without a faithful Go type
+	return anyType
+}
+
+func goStructType(t types.Type, st *types.Struct) reflect.Type {
+	key := t.String()
+	if c, ok := structTypes.Load(key); ok {
+		rt, _ := c.(reflect.Type)
+		return rt
+	}
+	var fields []reflect.StructField
+	for k := 0; k < st.NumFields(); k++ {
+		f := st.Field(k)
+		if !f.Exported() || f.Embedded() || f.Name() == structIDField {
+			if f.Embedded() {
+				structTypes.Store(key, nil)
+				return nil
+			}
+			continue
+		}
+		fields = append(fields, reflect.StructField{Name: f.Name(), Type: goFieldType(f.Type()), Tag: reflect.StructTag(st.Tag(k))})
+	}
+	fields = append(fields, reflect.StructField{Name: structIDField, Type: reflect.TypeOf(int(0)), Tag: `expr:"-" json:"-"`})
+	var rt reflect.Type
+	func() {
+		defer func() {
+			if recover() != nil {
+				rt = nil
+			}
+		}()
+		rt = reflect.StructOf(fields)
+	}()
+	if rt == nil {
+		structTypes.Store(key, nil)
+		return nil
+	}
+	structTypes.Store(key, rt)
+	return rt
+}
+
+func (i *interpreter) toNativeStruct(x structure, t types.Type, st *types.Struct, opaque map[int]value) (any, bool) {
+	rt := goStructType(t, st)
+	if rt == nil {
+		return nil, false
+	}
+	rv := reflect.New(rt).Elem()
+	for k := 0; k < st.NumFields(); k++ {
+		f := st.Field(k)
+		if !f.Exported() {
+			continue
+		}
+		fv := rv.FieldByName(f.Name())
+		if !fv.IsValid() {
+			return nil, false
+		}
+		n, ok := i.toNativeTyped(x[k], f.Type(), opaque)
+		if !ok {
+			return nil, false
+		}
+		if n == nil {
+			continue
+		}
+		nv := reflect.ValueOf(n)
+		switch {
+		case nv.Type().AssignableTo(fv.Type()):
+			fv.Set(nv)
+		case nv.Type().ConvertibleTo(fv.Type()) && nv.Kind() == fv.Kind():
+			fv.Set(nv.Convert(fv.Type()))
+		default:
+			return nil, false
+		}
+	}
+	id := len(opaque) + 1
+	opaque[id] = iface{t, x}
+	rv.FieldByName(structIDField).SetInt(int64(id))
+	return rv.Interface(), true
 }
